@@ -65,6 +65,9 @@ func Acquire(buf buffer.Buffer) Writer {
 
 var errClosed = errors.New("operation on closed writer")
 
+// closedWriter replaces the writer of an ended message writer, all its methods return errClosed.
+var closedWriter = &writer{err: errClosed}
+
 type writer struct {
 	*writerState
 
@@ -92,6 +95,9 @@ func (w *writer) Err() error {
 
 // Reset resets the writer and sets its output buffer.
 func (w *writer) Reset(buf buffer.Buffer) {
+	if w == closedWriter {
+		return
+	}
 	w.err = nil
 
 	if buf == nil {
